@@ -8,6 +8,40 @@ import os
 ROOT = os.path.dirname(os.path.dirname(os.path.abspath(__file__)))
 
 CHECKS = {
+    "C09": dict(
+        category="exploration",
+        technique="exhaustive enumeration (E1) of all strings up to a per-type bound over per-type class-representative "
+                  "alphabets, structured token products and a full-Unicode one-position sweep, each run through "
+                  "Registry().get(name) and compared with an independent reference conversion; plus product-automaton "
+                  "reachability (E5) between the determinised live re pattern and a hand-written automaton for the five "
+                  "regular-expression datatypes",
+        text="All 26 stock datatypes; totality everywhere (value or ValueError; TypeError only for timedelta's unknown "
+             "unit), exact result on the documented domain, idempotence of the key-normalising converters; exhaustive "
+             "within the stated bounds (41 M cases quick, 487 M thorough).  For the five regex datatypes the full-match "
+             "language is decided for strings of every length by exploring the product of the determinised live "
+             "pattern with a reference automaton (states / transitions reported).",
+        note="Trusted: vz/ref/dtypes.py (IPv6 validator self-tested against ipaddress at start-up), re._parser node "
+             "semantics as re-implemented in vz/engine/dfa.py (validated against rx.fullmatch at every code point on "
+             "every run), os.path for existing-*.  The prefix-match-then-compare gap of RegularExpressionConversion is "
+             "decided by E1 up to the length bound only.  Unspecified (totality only): one-letter host names, "
+             "non-ASCII identifiers, float inf/nan, unbalanced brackets in inet addresses, locale.",
+        design="DESIGN.md section 3, C09; tools/notes/C09.md", engine="E1 enumerate"),
+    "C18": dict(
+        category="exploration",
+        technique="exhaustive enumeration of all strings up to length 6/7 over an 11-symbol URL alphabet through the URL "
+                  "helpers against an independent RFC 3986 reference model, and of all (reference kind, 2-hop directory "
+                  "layout, file name, cwd) states on real files, each loaded through every entry point and compared with "
+                  "each other and with the tree the layout was built to produce",
+        text="(a) isPath, urlnormalize (+ idempotence), urldefrag, urljoin x 3 bases, normalizeURL on every string <= 6/7 "
+             "over {a C : / \\ # . f i l e} plus 'file:' + every string <= 4/5 in four scheme spellings.  (b) real files: "
+             "names of 1 (quick) / 2 (thorough) characters over 15 URL-neutral symbols incl. space and non-ASCII, 26 "
+             "two-hop layouts (same / sub / parent directory per hop), %include / import src / schema extends, 3 "
+             "working directories, 5 ways of naming the top resource, 4 variants (good, failing leaf, #fragment on the "
+             "reference, #fragment on the top name), decoy files at every other slot.  Exhaustive within the bounds.",
+        note="Trusted: vz/ref/urls.py, the POSIX tmpfs with UTF-8 names.  Unspecified regions (scheme case, host-form "
+             "file URLs, network-path references ...) are checked for totality and file:/// form only.  Remote and "
+             "package: URLs are not part of this check.",
+        design="DESIGN.md section 3, C18; tools/notes/C18.md", engine="E1 enumerate"),
     "C15": dict(
         category="model_checking",
         technique="breadth-first search over rewrite applications: from every seed text all applications of the layout "
